@@ -208,7 +208,8 @@ func (c *Cache) Exec(ctx context.Context, qCtx *query_context.Context, next sequ
 
 	err := next.ExecNext(ctx, qCtx)
 
-	if r := qCtx.R(); r != nil && cachedResp != r { // pointer compare. r is not cachedResp
+	// Only store a response that answers the question the key was built from.
+	if r := qCtx.R(); r != nil && cachedResp != r && answersQuestion(r, q) { // pointer compare. r is not cachedResp
 		saveRespToCache(msgKey, r, c.backend, c.args.LazyCacheTTL)
 		c.updatedKey.Add(1)
 	}
@@ -233,7 +234,7 @@ func (c *Cache) doLazyUpdate(msgKey string, qCtx *query_context.Context, next se
 		}
 
 		r := qCtx.R()
-		if r != nil {
+		if r != nil && answersQuestion(r, qCtx.Q()) {
 			saveRespToCache(msgKey, r, c.backend, c.args.LazyCacheTTL)
 			c.updatedKey.Add(1)
 		}
